@@ -107,7 +107,7 @@ class Run:
         last = sp.split("::")[-1]
         decl = t.get("callee") or ""
         # iterators over concrete short vectors (consumed in order; adapters are lazy, so effects happen when items are pulled)
-        ITER = (("iter",), ("miter",), ("eiter",), ("fiter",), ("citer",), ("ziter",))
+        ITER = (("iter",), ("miter",), ("eiter",), ("fiter",), ("citer",), ("ziter",), ("fmiter",))
         # `zip(0.., xs)` / `xs.iter().zip(ys)`: a counter from a concrete start and concrete short sequences, pulled in step (the first operand first)
         if last == "zip" and len(args) == 2 and "iter" in sp.lower():
             ops = []
@@ -161,6 +161,8 @@ class Run:
             return ("miter", args[0], args[1])
         if last == "filter" and "iterator::Iterator" in sp and len(args) == 2 and isinstance(args[0], tuple) and args[0][:1] in ITER:
             return ("fiter", args[0], args[1])
+        if last == "filter_map" and "iterator::Iterator" in sp and len(args) == 2 and isinstance(args[0], tuple) and args[0][:1] in ITER:
+            return ("fmiter", args[0], args[1])
         if last == "next" and len(args) == 1 and isinstance(args[0], tuple) and args[0][:1] in ITER:
             it = args[0]
             if it[0] == "iter":
@@ -190,6 +192,11 @@ class Run:
                 return some(("tuple", [st[1] - 1, ov[1]]))
             if it[0] == "miter":
                 return some(absint.call_closure(prog, it[2], [ov[1]], self.handler, 1, True))
+            if it[0] == "fmiter":
+                r_ = absint.opt_view(absint.call_closure(prog, it[2], [ov[1]], self.handler, 1, True))
+                if r_ is None:
+                    raise Unrecognised("filter_map closure with an undecided result")
+                return some(r_[1]) if r_[0] == "Some" else self.handler(name, args, t)
             if it[0] == "fiter":
                 keep = absint.call_closure(prog, it[2], [ov[1]], self.handler, 1, True)
                 if keep is True or keep == 1:
